@@ -39,6 +39,44 @@ type c08Gen struct {
 	reuse bool
 	ss    []*c08Sess
 	hist  [][]int // per session: request types answered without error
+	// script: requests to send first (a directed sequence that leaves out a prerequisite step), built when their turn comes
+	script []func(g *c08Gen) rawReq
+}
+
+// c08SkipScripts: honest TO2 sessions that leave out a step: ServiceInfo without DeviceServiceInfoReady, Done without
+// either. Everything sent is genuine and correctly encrypted; only the order is wrong.
+func c08SkipScripts(which int) []func(g *c08Gen) rawReq {
+	last := func(g *c08Gen) int { return len(g.ss) - 1 }
+	hello := func(g *c08Gen) rawReq {
+		return rawReq{Tok: "n", Typ: 60, Wf: true, NonceOf: -1, Signer: -1, EncS: -1, KexOk: true, IdxOk: true, Dev: 1}
+	}
+	prove := func(g *c08Gen) rawReq {
+		k := last(g)
+		q := g.base(k, 64)
+		g.rw.lastXb++
+		q.Dev, q.NonceOf, q.Signer, q.Xb = g.ss[k].dev, k, g.ss[k].dev, g.rw.lastXb
+		return q
+	}
+	info := func(dm bool) func(g *c08Gen) rawReq {
+		return func(g *c08Gen) rawReq {
+			k := last(g)
+			q := g.base(k, 68)
+			q.EncS, q.EncX, q.Dm = k, g.ss[k].xb, dm
+			return q
+		}
+	}
+	done := func(g *c08Gen) rawReq {
+		k := last(g)
+		q := g.base(k, 70)
+		q.EncS, q.EncX, q.NonceOf = k, g.ss[k].xb, k
+		return q
+	}
+	switch which % 2 {
+	case 0:
+		return []func(g *c08Gen) rawReq{hello, prove, info(true), info(false), info(false), done}
+	default:
+		return []func(g *c08Gen) rawReq{hello, prove, done}
+	}
 }
 
 func (g *c08Gen) live(k int) bool {
@@ -261,9 +299,15 @@ func c08Sequence(x *runCtx, r *rand.Rand, backend string, k lab.Kind, reuse bool
 		x.r.Violate(rep.Violation{Kind: "oracle", Check: "C08.oracle", Signature: "C08." + sig, Input: input, Impl: impl, PropertyFails: true})
 	}
 	classes := map[string]int{}
+	if seqNo%8 == 5 {
+		g.script = c08SkipScripts(seqNo / 8)
+	}
 	for step := 0; step < length; step++ {
 		var q rawReq
 		roll := r.IntN(100)
+		if len(g.script) > 0 {
+			roll = 1000 // the scripted request takes this turn
+		}
 		var liveS []int
 		for i := range g.ss {
 			if g.live(i) {
@@ -271,6 +315,9 @@ func c08Sequence(x *runCtx, r *rand.Rand, backend string, k lab.Kind, reuse bool
 			}
 		}
 		switch {
+		case roll == 1000:
+			q = g.script[0](g)
+			g.script = g.script[1:]
 		case len(g.ss) == 0 || roll < 22 || (len(liveS) == 0 && roll < 70):
 			q = g.start()
 		case roll < 78 && len(liveS) > 0:
